@@ -116,7 +116,7 @@ fn main() {
     });
 
     // ---- random long descriptor strings (valid ones and mutations of valid ones), all three kinds on each
-    let n = ctx.tier.pick(30_000, 600_000);
+    let n = ctx.tier.pick(120_000, 600_000);
     run_cases(&ctx, &replay, &mut rep, "rand-desc", n, |rng, rep, _| {
         let mut st = Stats::default();
         let (s, how) = gen::descriptor_string(rng);
@@ -136,7 +136,7 @@ fn main() {
     });
 
     // ---- random structures: write, compare with the reference printer, parse back
-    let n = ctx.tier.pick(30_000, 600_000);
+    let n = ctx.tier.pick(120_000, 600_000);
     run_cases(&ctx, &replay, &mut rep, "rand-types", n, |rng, rep, _| {
         let d = gen::structure(rng);
         rep.count(&format!("rand_types.{}", kind_of(&d).name()));
@@ -151,7 +151,7 @@ fn main() {
     });
 
     // ---- random names over a rich alphabet (incl. <init>, <clinit>, unicode), split/join on valid class names
-    let n = ctx.tier.pick(30_000, 600_000);
+    let n = ctx.tier.pick(120_000, 600_000);
     run_cases(&ctx, &replay, &mut rep, "rand-names", n, |rng, rep, _| {
         let mut st = Stats::default();
         let s = gen::name_string(rng);
